@@ -6,6 +6,7 @@ import (
 	"bufio"
 	"crypto/hmac"
 	"crypto/sha256"
+	"fmt"
 	"math/big"
 	"os"
 	"strings"
@@ -751,7 +752,28 @@ func (ge *gen) sign(oracle bool) Case {
 			sec = []byte{1}
 		}
 	}
-	switch g.Intn(8) {
+	switch g.Intn(9) {
+	case 8:
+		// S = 0: message value m = -r*d (mod n) makes k^-1 (m + r d) vanish. Signature.Sign must return 0
+		// (no signature), the model `none`. Sibling m+1 gives S = k^-1: an ordinary signature.
+		// (Unreachable through btc.EcdsaSign: there the nonce is a hash of the message, so m cannot be
+		// solved for after the nonce is known.)
+		d := new(big.Int).Mod(new(big.Int).SetBytes(sec), refN)
+		k := ge.scalar()
+		R := refMul(k, refG())
+		rr := new(big.Int).Mod(R.x, refN)
+		m := new(big.Int).Mul(rr, d)
+		m.Neg(m)
+		m.Mod(m, refN)
+		if g.Chance(1, 4) {
+			m.Add(m, big1)
+			m.Mod(m, refN)
+			return mk("sign", "s-zero-neighbour", oracle, sec, be32(m), be32(k))
+		}
+		if mn := new(big.Int).Add(m, refN); mn.BitLen() <= 256 && g.Chance(1, 4) {
+			m = mn // the same value unreduced
+		}
+		return mk("sign", "s-zero", oracle, sec, be32(m), be32(k))
 	case 0, 1:
 		// S with leading zero bytes whose first significant byte is >= 0x80 (DER needs the 00 pad although
 		// the integer is shorter than 32 bytes): choose the target s, solve m = s*k - r*d (mod n).
@@ -805,6 +827,32 @@ func (ge *gen) ssign(oracle bool) Case {
 	if g.Chance(1, 12) {
 		sk = be32(ge.special()) // 0, n, n+k, p, … : must return nil
 	}
+	if g.Chance(1, 8) {
+		// a secret key that is not a 32-byte array (BIP340 takes 32 bytes): nil expected for every length.
+		// The pinned snapshot panicked on short keys with an even-Y public point and signed with a nonce
+		// derived from sk[:32] on longer ones.
+		v := ge.scalar()
+		switch g.Intn(7) {
+		case 0:
+			sk = nil
+		case 1:
+			sk = []byte{byte(1 + g.Intn(255))} // one byte: small multiples of G, both Y parities
+		case 2:
+			sk = big.NewInt(int64(1 + g.Intn(1<<30))).Bytes()
+		case 3:
+			sk = g.Bytes(31)
+			if new(big.Int).SetBytes(sk).Sign() == 0 {
+				sk[30] = 1
+			}
+		case 4:
+			sk = append([]byte{0}, be32(v)...) // 33 bytes, value in range
+		case 5:
+			sk = append(be32(v), 0) // 33 bytes, value >= n mostly
+		default:
+			sk = append(make([]byte, 1+g.Intn(8)), be32(v)...)
+		}
+		return mk("ssign", "sk-len", oracle, msg, sk, aux)
+	}
 	return mk("ssign", "bip340", oracle, msg, sk, aux)
 }
 
@@ -833,12 +881,21 @@ func (ge *gen) hmac(oracle bool) Case {
 	return mk("hmac", "keylen", oracle, g.Bytes(kl), g.Bytes(g.Intn(150)))
 }
 
+// corpusArity: number of arguments of every op a corpus line may carry (legacy: of the wrapped op).
+var corpusArity = map[string]int{"ecdsa": 3, "pub": 1, "psig": 1, "schnorr": 3, "tweak": 4, "sign": 3, "signrfc": 2,
+	"signrnd": 2, "ssign": 3, "nonce": 3, "hmac": 2, "recov": 4, "noncevec": 4, "schnorre": 3, "ecmneg": 3,
+	"tweakadd": 2, "legacy": -1}
+
+// corpusMinCases: the corpus only grows; fewer lines than this means a damaged file.
+const corpusMinCases = 130
+
 // corpusCases reads corpus/C03/cases.txt: one case per line, "<op> <class> <arg>..." (hex, "-" = empty).
 func corpusCases() []Case {
 	var out []Case
 	f, err := os.Open(vlib.Root() + "/corpus/C03/cases.txt")
 	if err != nil {
-		return nil
+		fmt.Fprintln(os.Stderr, "c03: the corpus cannot be read:", err)
+		os.Exit(2)
 	}
 	defer f.Close()
 	sc := bufio.NewScanner(f)
@@ -849,10 +906,20 @@ func corpusCases() []Case {
 			continue
 		}
 		fs := strings.Fields(l)
-		if len(fs) < 3 {
-			continue
+		if len(fs) < 3 || corpusArity[fs[0]] == 0 || (fs[0] != "legacy" && len(fs)-2 != corpusArity[fs[0]]) ||
+			(fs[0] == "legacy" && (len(fs) < 4 || corpusArity[fs[2]] == 0 || len(fs)-3 != corpusArity[fs[2]])) {
+			fmt.Fprintln(os.Stderr, "c03: malformed corpus line (unknown op or wrong number of arguments):", l)
+			os.Exit(2)
 		}
 		out = append(out, Case{Op: fs[0], Class: fs[1], Args: fs[2:], Oracle: true})
+	}
+	if err := sc.Err(); err != nil {
+		fmt.Fprintln(os.Stderr, "c03: reading the corpus:", err)
+		os.Exit(2)
+	}
+	if len(out) < corpusMinCases {
+		fmt.Fprintf(os.Stderr, "c03: corpus/C03/cases.txt has %d cases, at least %d expected (truncated file?)\n", len(out), corpusMinCases)
+		os.Exit(2)
 	}
 	return out
 }
